@@ -279,7 +279,7 @@ def scenarios_geometry(tier, rng):
                                            _image(rng, n), progress=rng.random() < 0.8))
     if tier == 'quick':
         rng.shuffle(out)
-        out = out[:1500]
+        out = out[:1000]
     return out
 
 
@@ -321,7 +321,7 @@ def scenarios_faults(tier, rng):
                     out.append(_sc(STM32 if gi % 2 == 0 else NRF51, ps, bp, fp, tsp, ovr, img, fates))
     if tier == 'quick':
         rng.shuffle(out)
-        out = out[:1000]
+        out = out[:600]
     return out
 
 
@@ -331,7 +331,7 @@ def scenarios_real(tier, rng):
     K = 1024
     stm = REAL_GEOM[STM32]
     nrf = REAL_GEOM[NRF51]
-    lens_stm = [1, K - 1, K, K + 1, 10 * K - 1, 10 * K, 10 * K + 1] if tier == 'quick' else \
+    lens_stm = [1, K + 1, 10 * K, 10 * K + 1] if tier == 'quick' else \
         [1, 24, 25, 26, K - 1, K, K + 1, 2 * K, 10 * K - 1, 10 * K, 10 * K + 1, 11 * K, 20 * K, 20 * K + 1,
          25 * K + 7]
     for n in lens_stm:
@@ -340,7 +340,7 @@ def scenarios_real(tier, rng):
     out.append(_sc(STM32, *stm, 1022, _image(rng, 2 * K)))                 # override: the last two pages
     out.append(_sc(STM32, *stm, 1022, _image(rng, 2 * K + 1)))             # one byte too many
     out.append(_sc(STM32, *stm, 1024, _image(rng, 1)))                     # override = flash size
-    lens_nrf = [1, K, K + 1, 3 * K] if tier == 'quick' else [1, 25, K - 1, K, K + 1, 2 * K, 3 * K + 1, 5 * K]
+    lens_nrf = [K, K + 1] if tier == 'quick' else [1, 25, K - 1, K, K + 1, 2 * K, 3 * K + 1, 5 * K]
     for n in lens_nrf:
         out.append(_sc(NRF51, *nrf, None, _image(rng, n)))
     out.append(_sc(NRF51, 1024, 1, 232, 108, None, _image(rng, 2 * K + 9), ['lostcmd', 'ok', 'okdup', 'lostreply']))
@@ -356,7 +356,7 @@ def scenarios_real(tier, rng):
 
 def scenarios_random(tier, rng):
     out = []
-    for _ in range(1000 if tier == 'quick' else 20000):
+    for _ in range(600 if tier == 'quick' else 20000):
         ps = rng.choice((1, 2, 3, 5, 8, 13, 24, 25, 26, 27, 49, 50, 51, 64, 75, 100, 101, 125, 126))
         bp = rng.randint(1, 5)
         fp = rng.randint(1, 14)
@@ -371,6 +371,25 @@ def scenarios_random(tier, rng):
         out.append(_sc(rng.choice((STM32, NRF51)), ps, bp, fp, tsp, ovr, _image(rng, n), fates,
                        progress=rng.random() < 0.8))
     return out
+
+
+def scenarios_mutant_core(rng):
+    """Fixed scenarios that make each in-memory mutant visible (added to the sampled pool)."""
+    return [
+        _sc(NRF51, 51, 2, 6, 1, None, _image(rng, 160)),                   # two chunks + tail per page
+        _sc(STM32, 26, 1, 5, 0, None, _image(rng, 78)),
+        _sc(STM32, 3, 2, 8, 1, None, _image(rng, 7)),                      # loop flush + final flush
+        _sc(STM32, 3, 2, 8, 1, None, _image(rng, 17)),                     # three loop flushes
+        _sc(NRF51, 3, 2, 8, 1, None, _image(rng, 6)),                      # exact multiple of the page size
+        _sc(NRF51, 3, 2, 8, 1, None, _image(rng, 17), ['nack']),           # negative reply, more to flash
+        _sc(STM32, 3, 2, 8, 1, None, _image(rng, 17), ['ok', 'lostcmd', 'nack']),
+        _sc(STM32, 3, 2, 8, 1, None, _image(rng, 17), ['lostcmd'] * 9),    # never answered
+        _sc(NRF51, 3, 2, 8, 1, None, _image(rng, 17), ['lostreply'] * 9),
+        _sc(STM32, 3, 2, 4, 1, None, _image(rng, 10)),                     # capacity 9: one byte too many
+        _sc(STM32, 3, 2, 4, 1, None, _image(rng, 12)),                     # capacity 9: one page too many
+        _sc(NRF51, 3, 2, 8, 1, 3, _image(rng, 11)),                        # override page
+        _sc(NRF51, 3, 2, 8, 1, 6, _image(rng, 7)),                         # override page, too large there
+    ]
 
 
 # --------------------------------------------------------------------------- spec -> code
@@ -429,7 +448,7 @@ def judge(out, traces, label, count=True):
         t['id'] = k + 1
     # long traces first so that the batches are balanced
     order = sorted(traces, key=lambda t: -(len(t['ev']) * 40 + len(t['image'])))
-    nb = min(common.NCPU, max(1, len(order) // 8))
+    nb = min(common.NCPU if len(order) >= 4000 else max(1, common.NCPU // 2), max(1, len(order) // 8))
     rr = [t for b in range(nb) for t in order[b::nb]]
     chunk = max(1, -(-len(rr) // nb))
     verdicts, st = common.validate_traces('FlashTrace.tla', 'TRACE_Flash.cfg', rr, chunk=min(4000, chunk))
@@ -510,25 +529,30 @@ def main(tier, seed, replay=None):
         phase[name] = round(time.time() - t_ph[0], 1)
         t_ph[0] = time.time()
     out.extra['phase_s'] = phase
-    for cfg in (['MC_Flash_quick.cfg', 'MC_Flash_chunk25_quick.cfg'] if quick else
-                ['MC_Flash_thorough.cfg', 'MC_Flash_chunk25.cfg']):
-        r = tlc.check('MC_Flash.tla', cfg, coverage=(cfg == 'MC_Flash_chunk25.cfg'), timeout=3000)
-        out.add_tlc(cfg, r)
+    main_cfgs = ['MC_Flash_quick.cfg', 'MC_Flash_chunk25_quick.cfg'] if quick else \
+        ['MC_Flash_thorough.cfg', 'MC_Flash_chunk25.cfg']
 
-    def refute(b):
-        return b, tlc.expect_violation('MC_Flash.tla', 'MC_Flash_bug_%s.cfg' % b, workers=4, timeout=900,
-                                       heap='2g')
+    def design(job):
+        kind, name = job
+        if kind == 'check':
+            big = name == main_cfgs[0]
+            return job, tlc.check('MC_Flash.tla', name, coverage=(name == 'MC_Flash_chunk25.cfg'), timeout=3000,
+                                  workers=(8 if quick else 12) if big else 4, heap='4g' if big else '2g')
+        return job, tlc.expect_violation('MC_Flash.tla', 'MC_Flash_bug_%s.cfg' % name, workers=2, timeout=900,
+                                         heap='2g')
     with ThreadPoolExecutor(max_workers=4) as ex:
-        for b, rb in ex.map(refute, BUG_CFGS):
-            clause = rb.error_trace[-1][1].get('h', {}).get('clause') if rb.error_trace else '?'
-            out.sensitivity['spec:Bug=' + b] = 'refuted (%s: %s) after %d states' % (rb.violated, clause, rb.distinct)
-            if rb.violated != 'PropOK':
-                raise common.MachineryError('bug cfg %s refuted by %s, not by the property' % (b, rb.violated))
-
+        for (kind, name), r in ex.map(design, [('check', c) for c in main_cfgs] + [('bug', b) for b in BUG_CFGS]):
+            if kind == 'check':
+                out.add_tlc(name, r)
+                continue
+            clause = r.error_trace[-1][1].get('h', {}).get('clause') if r.error_trace else '?'
+            out.sensitivity['spec:Bug=' + name] = 'refuted (%s: %s) after %d states' % (r.violated, clause, r.distinct)
+            if r.violated != 'PropOK':
+                raise common.MachineryError('bug cfg %s refuted by %s, not by the property' % (name, r.violated))
     lap('design spec + bug cfgs')
 
     # 2. spec -> code: TLC behaviours driven through the real loader, everything compared
-    nsim = 300 if quick else 3000
+    nsim = 200 if quick else 3000
     rs, behs = tlc.simulate('MC_Flash.tla', 'SIM_Flash.cfg', num=nsim, depth=400, seed=seed % 100000, timeout=1500)
     out.add_tlc('SIM_Flash.cfg (-simulate num=%d)' % nsim, rs)
     sims = [x for x in (scenario_from_behaviour(b) for b in behs) if x is not None]
@@ -581,11 +605,14 @@ def main(tier, seed, replay=None):
     out.extra['events_total'] = sum(len(t['ev']) for t in all_traces)
 
     # 4. sensitivity: in-memory mutants must be rejected by the monitor; corrupted traces too
-    pool = groups[1][1][::max(1, len(groups[1][1]) // (50 if quick else 300))] + \
-        groups[2][1][::max(1, len(groups[2][1]) // (50 if quick else 300))]
+    pool = scenarios_mutant_core(rng) + groups[1][1][::max(1, len(groups[1][1]) // (30 if quick else 300))] + \
+        groups[2][1][::max(1, len(groups[2][1]) // (30 if quick else 300))]
     jobs = [(sc, m) for m in sorted(MUTANTS) for sc in pool]
     mtraces = run_scenarios(jobs, mutant='*')
-    mver = judge(out, mtraces, 'mutants', count=False)
+    corrupted = corrupted_traces(all_scs, all_traces)
+    cnames = sorted(corrupted)
+    mver = judge(out, mtraces + [corrupted[n] for n in cnames], 'mutants + corrupted', count=False)
+    cver = mver[len(mtraces):]
     for m in sorted(MUTANTS):
         vs = [v for (sc, mm), v in zip(jobs, mver) if mm == m]
         rej = [v[0] for v in vs if v[0] != 'ok']
@@ -593,13 +620,13 @@ def main(tier, seed, replay=None):
             len(rej), len(vs), ', '.join(sorted(set(rej))[:4]))
         if not rej:
             raise common.MachineryError('monitor did not reject in-memory mutant %s' % m)
-    out.sensitivity.update(binding_selftest(out, all_scs, all_traces))
+    out.sensitivity.update(binding_selftest(cnames, cver))
     lap('mutants + corrupted traces')
     return out.finish()
 
 
-def binding_selftest(out, scs, traces):
-    """Corrupted recordings of a correct run must be rejected (monitor or conformance)."""
+def corrupted_traces(scs, traces):
+    """Corrupted recordings of a correct run; each must be rejected (monitor or conformance)."""
     base = next(t for sc, t in zip(scs, traces)
                 if len(t['flash']) >= 2 and sum(1 for e in t['ev'] if e['e'] == 'tx') >= 6
                 and t['ev'][-1].get('result') == 'ok' and len(t['image']) < 400)
@@ -622,10 +649,10 @@ def binding_selftest(out, scs, traces):
     t5 = copy.deepcopy(base)            # conformance only: the loader's ctr differs
     t5['ev'][kw]['ctr'] += 1
     variants['binding:ctr-projection-changed'] = t5
-    names = sorted(variants)
-    o2 = common.Outcome('C12', out.tier, out.seed)
-    vs = judge(o2, [variants[n] for n in names], 'corrupted', count=False)
-    out.tlc_runs.extend(o2.tlc_runs)
+    return variants
+
+
+def binding_selftest(names, vs):
     res = {}
     for n, v in zip(names, vs):
         rejected = v[0] != 'ok' or not v[2]
